@@ -3,6 +3,7 @@ package props
 import (
 	"fmt"
 	"go/ast"
+	"go/constant"
 	"go/token"
 	"go/types"
 	"sort"
@@ -406,4 +407,189 @@ func staleLengthRule(p *core.Program, r *core.Report, region map[string]bool) {
 		}
 	}
 	r.Analysed["K6_functions_with_saved_lengths"] = n
+}
+
+// ---------------------------------------------------------------------------------------
+// K7 — allocation lengths. make([]T, n) and make(chan T, n) panic for a negative n. In the
+// unguarded region every such length must be non-negative by construction: a non-negative
+// constant, a len/cap, a reflect count, sums / products / quotients of those, a name bound
+// once to such an expression — or a variable whose every path to the make passes a test OF
+// THAT VARIABLE that leaves when it is below a non-negative bound (a test of other quantities
+// from which the variable was computed proves nothing once the subtraction wraps around).
+func makeLengthRule(p *core.Program, r *core.Report, region map[string]bool) {
+	n := 0
+	for _, rel := range []string{"", "parser", "parser/lexer", "checker", "conf", "compiler", "optimizer", "file", "ast"} {
+		pk := p.Pkg(rel)
+		if pk == nil {
+			continue
+		}
+		info := pk.TypesInfo
+		for _, fd := range p.FuncDecls(rel) {
+			if fd.Body == nil {
+				continue
+			}
+			fname := core.FuncName(rel, fd)
+			if !region[fname] && rel != "parser/lexer" && rel != "parser" && rel != "file" {
+				continue
+			}
+			ld := eng.SingleDefs(info, fd.Body)
+			k := 0
+			ast.Inspect(fd.Body, func(nd ast.Node) bool {
+				c, ok := nd.(*ast.CallExpr)
+				if !ok || !isBuiltinCall(info, c, "make") || len(c.Args) < 2 {
+					return true
+				}
+				switch info.TypeOf(c.Args[0]).Underlying().(type) {
+				case *types.Slice, *types.Chan:
+				default:
+					return true
+				}
+				for ai, arg := range c.Args[1:] {
+					if tv, ok := info.Types[arg]; ok && tv.Value != nil {
+						continue // a constant: the compiler rejects a negative one
+					}
+					k++
+					n++
+					key := fmt.Sprintf("%s/make#%d length", fname, k)
+					if ai == 1 {
+						key = fmt.Sprintf("%s/make#%d capacity", fname, k)
+					}
+					ok, why := nonNegative(info, ld, fd, arg, c.Pos(), 0)
+					r.Check(ok, "R4.3", key, p.Pos(c.Pos()), why,
+						"`"+eng.ExprStr(c)+"` in the unguarded region: the length `"+eng.ExprStr(arg)+"` is not non-negative by construction ("+why+"): a negative length panics outside every recover")
+				}
+				return true
+			})
+		}
+	}
+	r.Analysed["make_lengths_examined"] = n
+}
+
+var countMethods = map[string]bool{"NumIn": true, "NumOut": true, "NumField": true, "NumMethod": true, "Len": true, "Cap": true}
+
+func nonNegative(info *types.Info, ld *eng.LocalDefs, fd *ast.FuncDecl, e ast.Expr, at token.Pos, depth int) (bool, string) {
+	if depth > 6 {
+		return false, "too deep"
+	}
+	e = eng.Unparen(e)
+	if tv, ok := info.Types[e]; ok && tv.Value != nil {
+		if v, ok := constInt(tv); ok && v >= 0 {
+			return true, "constant " + tv.Value.String()
+		}
+		if f, ok := constant.Float64Val(tv.Value); ok && f >= 0 {
+			return true, "constant"
+		}
+		return false, "a negative constant"
+	}
+	switch x := e.(type) {
+	case *ast.CallExpr:
+		if isBuiltinCall(info, x, "len") || isBuiltinCall(info, x, "cap") {
+			return true, eng.ExprStr(x)
+		}
+		if tv, ok := info.Types[x.Fun]; ok && tv.IsType() && len(x.Args) == 1 {
+			if b, ok := tv.Type.Underlying().(*types.Basic); ok && b.Info()&types.IsInteger != 0 {
+				return nonNegative(info, ld, fd, x.Args[0], at, depth+1)
+			}
+		}
+		if sel, ok := x.Fun.(*ast.SelectorExpr); ok && countMethods[sel.Sel.Name] && len(x.Args) == 0 {
+			if fn := eng.CalleeOf(info, x); fn != nil && fn.Pkg() != nil && fn.Pkg().Path() == "reflect" {
+				return true, "a reflect count " + eng.ExprStr(x)
+			}
+		}
+		return false, "the result of `" + eng.ExprStr(x) + "`"
+	case *ast.BinaryExpr:
+		switch x.Op {
+		case token.ADD, token.MUL, token.QUO:
+			ok1, w1 := nonNegative(info, ld, fd, x.X, at, depth+1)
+			ok2, w2 := nonNegative(info, ld, fd, x.Y, at, depth+1)
+			if ok1 && ok2 {
+				return true, "non-negative terms (" + w1 + ", " + w2 + ")"
+			}
+			if !ok1 {
+				return false, w1
+			}
+			return false, w2
+		}
+		return false, "`" + eng.ExprStr(x) + "` involves a subtraction or another operator"
+	case *ast.SelectorExpr:
+		// a field: only a count field of an instruction operand decoded by this module would do;
+		// none occurs in the unguarded region today
+		return false, "the field `" + eng.ExprStr(x) + "`"
+	case *ast.Ident:
+		obj := info.Uses[x]
+		if def := ld.Def(obj); def != nil {
+			if ok, why := nonNegative(info, ld, fd, def, ld.DefPos(x), depth+1); ok {
+				return true, x.Name + " = " + why
+			}
+		}
+		if bound, found := lowerGuard(info, fd, at, obj); found {
+			return true, "every path to the make passes a test that leaves when " + x.Name + " " + bound
+		}
+		return false, "`" + x.Name + "` is computed (e.g. by a subtraction) and no test of `" + x.Name + "` itself that leaves for negative values dominates the make"
+	}
+	return false, "`" + eng.ExprStr(e) + "`"
+}
+
+// lowerGuard: among the statements that precede pos in the enclosing blocks (hence dominate
+// it), an `if v < C { leave }` / `if v <= C { leave }` with C >= 0 (resp. >= -1) constant, not
+// followed by a reassignment of v.
+func lowerGuard(info *types.Info, fd *ast.FuncDecl, pos token.Pos, v types.Object) (string, bool) {
+	bound, found := "", false
+	var visit func(list []ast.Stmt)
+	visit = func(list []ast.Stmt) {
+		for _, st := range list {
+			if st.End() <= pos {
+				if is, ok := st.(*ast.IfStmt); ok && is.Else == nil && is.Init == nil && blockLeaves(is.Body) {
+					if b, ok := eng.Unparen(is.Cond).(*ast.BinaryExpr); ok {
+						op, x, y := b.Op, b.X, b.Y
+						if id, ok := eng.Unparen(y).(*ast.Ident); ok && info.Uses[id] == v {
+							// C > v  ≡  v < C
+							x, y = y, x
+							op = map[token.Token]token.Token{token.GTR: token.LSS, token.GEQ: token.LEQ, token.LSS: token.GTR, token.LEQ: token.GEQ}[op]
+						}
+						if id, ok := eng.Unparen(x).(*ast.Ident); ok && info.Uses[id] == v {
+							if tv, ok := info.Types[y]; ok && tv.Value != nil {
+								if c, ok := constInt(tv); ok {
+									if (op == token.LSS && c >= 0) || (op == token.LEQ && c >= -1) {
+										bound, found = op.String()+" "+tv.Value.String(), true
+									}
+								}
+							}
+						}
+					}
+				}
+				ast.Inspect(st, func(n ast.Node) bool {
+					switch s := n.(type) {
+					case *ast.AssignStmt:
+						for _, l := range s.Lhs {
+							if id, ok := l.(*ast.Ident); ok && objOf(info, id) == v && s.Tok != token.DEFINE {
+								found = false
+							}
+						}
+					case *ast.IncDecStmt:
+						if id, ok := s.X.(*ast.Ident); ok && objOf(info, id) == v && s.Tok == token.DEC {
+							found = false
+						}
+					}
+					return true
+				})
+				continue
+			}
+			if st.Pos() <= pos && pos < st.End() {
+				ast.Inspect(st, func(n ast.Node) bool {
+					if blk, ok := n.(*ast.BlockStmt); ok && blk.Pos() <= pos && pos < blk.End() {
+						visit(blk.List)
+						return false
+					}
+					if cc, ok := n.(*ast.CaseClause); ok && cc.Pos() <= pos && pos < cc.End() {
+						visit(cc.Body)
+						return false
+					}
+					return true
+				})
+			}
+		}
+	}
+	visit(fd.Body.List)
+	return bound, found
 }
